@@ -120,8 +120,11 @@ theorem step_extend (e : Eig ℂ n N) (cpx : Fin N → Bool) (isSmall : ℂ → 
       = extend cpx (stepModal order1 (fun k => coefSel isSmall (e.lam k) h) y w0 w1) := by
   funext k
   cases k with
-  | inl k => rfl
+  | inl k =>
+    simp only [extend, fullLam, stepModal, coefSel, Sum.elim_inl]
+    rfl
   | inr k =>
+    simp only [extend, fullLam, stepModal, coefSel, Sum.elim_inr]
     exact (stepCplx_conj order1 (isSmall (e.lam k.1)) (e.lam k.1) (y k.1) (w0 k.1) (w1 k.1) h).symm
 
 theorem step_realAt (e : Eig ℂ n N) (cpx : Fin N → Bool) (hr : RealModes e cpx) (isSmall : ℂ → Bool)
